@@ -190,6 +190,8 @@ def eval_hash(scn: dict[str, Any], tag: str) -> dict[str, Any]:
             zrun(seeds[0], base_spec(h, "c", extra))
             snap = os.path.join(h.world.root, "snapc")
             kit.rmtree(snap)
+            if not os.path.isdir(h.world.cache_dir("c")):
+                return out  # the build aborted before any cache was created (blocker): no warm leg
             shutil.copytree(h.world.cache_dir("c"), snap)
             for st in scn["steps"]:
                 h.apply_step(st)
@@ -253,7 +255,9 @@ def eval_perm(scn: dict[str, Any], tag: str) -> dict[str, Any]:
                 out["nontrivial"] = len(files) >= 3 and len(r["stdout"].splitlines()) >= 3
                 continue
             if multiset(r) != multiset(ref):
-                if runner.differs_only_in_only_once(r, ref):
+                if runner.differs_only_in_only_once(r, ref) or runner.partial_output_before_blocker(r, ref):
+                    # C02's known-finding classes (per-process only_once notes; how much was printed
+                    # before a blocking error aborted the build) - not an order dependence of the result
                     out["only_once"] = True
                     continue
                 out["violation"] = {"kind": "diagnostics_depend_on_argument_order" if not scn.get("listdir_seed_list") else "diagnostics_depend_on_listing_order",
